@@ -51,7 +51,7 @@ def _search_batch(job):
             out.append(dict(unclassified="compile error %s: %s" % (type(ex).__name__, ex), pat=pat, kind=kind))
             continue
         try:
-            P = glue.parse_pattern(pat, file_pattern=True)
+            P = glue.parse_pattern(pat, file_pattern=True, ambiguous="rtl" if kind == "adjacent" else "reject")
         except glue.OutsideGrammar as ex:
             out.append(dict(unclassified=str(ex), pat=pat, kind=kind))
             continue
@@ -188,6 +188,19 @@ def run(ctx):
         batch.append(("twice", pat, lines))
         if len(batch) >= 150:
             jobs.append(batch); batch = []
+    # literal text that ends in a 0 directly in front of a part whose name starts like a zero-padded part (20YY, r0MM, level 0MAJOR): the right-most part name wins
+    adj = [("YY", "23", "2023"), ("YYYY", "2023", "23"), ("MM", "7", "07x"), ("MAJOR.MINOR", "1.2", "x"), ("DD", "9", "0"), ("JJJ", "41", "x"), ("VV", "7", "x"), ("GGGG", "2023", "x"), ("WW", "7", "x")]
+    for lit in rng.sample(lits, min(len(lits), ctx.pick(400, 6000))) + rnd[:ctx.pick(200, 6000)]:
+        if lit.startswith("^") or lit.endswith("$"):
+            continue
+        part, val, other = rng.choice(adj)
+        tail = rng.choice(["0", "00", "20", "x0", "."])
+        pat = spell(lit) + tail + part
+        full = lit + tail + val
+        lines = [full, "x" + full + " y", lit + tail + other, lit + tail, lit + tail[:-1] + val, full.replace(tail + val, tail + " " + val, 1), lit + val, ""]
+        batch.append(("adjacent", pat, lines))
+        if len(batch) >= 150:
+            jobs.append(batch); batch = []
     # anchors as first / last symbol
     for lit in rng.sample(lits, min(len(lits), 300)):
         if "^" in lit or "$" in lit:
@@ -216,7 +229,7 @@ def run(ctx):
         ctx.divergence("unclassified pattern", u)
     for i, e in enumerate(events):
         e["id"] = i + 1
-    for k in ("alone", "wrapped", "twice", "anchored", "via-cfg", "via-toml"):
+    for k in ("alone", "wrapped", "twice", "adjacent", "anchored", "via-cfg", "via-toml"):
         ctx.count("events_" + k, sum(1 for e in events if e["kind"] == k))
     fails, st = tlc.validate_events("Trace_Text", [{k: v for k, v in e.items() if k not in ("pat", "kind")} for e in events], name="C07")
     ctx.add_trace(st)
@@ -248,7 +261,7 @@ def run(ctx):
     ctx.evaluations = len(events) + n_grep
     for e in events:
         ctx.nontriv((e["pat"], tuple(e["line"])))
-    ctx.rule = ("every literal over 69 symbols up to length %d plus seeded literals up to length 40 (30%% regex metacharacters), alone, wrapped around YYYY.MM, between two occurrences of the same parts, anchored, and a sample written into setup.cfg / bumpver.toml and loaded through the config loader; "
+    ctx.rule = ("every literal over 69 symbols up to length %d plus seeded literals up to length 40 (30%% regex metacharacters), alone, wrapped around YYYY.MM, between two occurrences of the same parts, ending in 0 directly in front of a part, anchored, and a sample written into setup.cfg / bumpver.toml and loaded through the config loader; "
                 "each against lines within edit distance 1; `bumpver grep` end to end on a sample; non-trivial = distinct (pattern, line)" % N)
     ctx.exhaustive = False
     for e in events[1000:1003]:
